@@ -59,6 +59,9 @@ type gen struct {
 	globals []gvar
 	depth   int
 	saveCtl []ctl
+	// pad is put (on the same source line, consuming no randomness) at the start of every function body
+	// incl. the main chunk: the twin of a program differs from it only by the pads (twin.go)
+	pad string
 }
 
 func (g *gen) id(prefix string) string {
@@ -422,7 +425,7 @@ func (g *gen) funcExpr(asStmtBody bool) string {
 	if va {
 		params = append(params, "...")
 	}
-	g.sb.WriteString("function(" + strings.Join(params, ", ") + ")\n")
+	g.sb.WriteString("function(" + strings.Join(params, ", ") + ")" + g.pad + "\n")
 	g.pushFunc(nf)
 	g.ind++
 	g.block(1+g.r.Intn(4), true)
